@@ -238,6 +238,22 @@ CLAIMED["C06"] = dict(
          "the signs into the mixing matrices.",
     ref="3 C06")
 
+CLAIMED["C07"] = dict(
+    category="other",
+    technique="units-of-measure (mass dimension) inference by abstract interpretation of the symbolically "
+              "folded a_mu functions",
+    text="All 61 functions of the MSSM one-loop, two-loop and uncertainty code are dimensionally consistent: "
+         "sums/comparisons combine equal dimensions, every logarithm, dilogarithm and loop function receives a "
+         "dimensionless argument, Iabc is homogeneous of degree -2, and every a_mu, Delta and coupling is "
+         "dimensionless (log_scale: GeV). Hence each contribution is a function of mass ratios times "
+         "m_mu^2/M^2-type prefactors -- the structural reason for the 1/k^2 law -- and a mass in place of a "
+         "squared mass, a missing 1/m^2 or the log of a dimensionful quantity is reported as a unit error at "
+         "the offending sub-expression. The two-loop uncertainty is a constant floor plus |2L(a)| terms.",
+    note=TRUST + "This is a necessary condition only: it proves homogeneity under a joint rescaling of all "
+         "dimensionful quantities (SM masses included). The size of the O(MZ^2/M_SUSY^2) remainder and of the "
+         "logarithms is numerical and not decided.",
+    ref="3 C07, Appendix C")
+
 NOT_APPLICABLE = {
     "C03": "numerical agreement of one-loop results with an independent higher-precision evaluation over all "
            "parameter points: depends on eigen-decomposition values; no code-shape clause of its own "
